@@ -139,6 +139,30 @@ func FindOPRFKey(s oprf.Suite, want byte) int {
 	panic("no key found")
 }
 
+// FindOPRFKeyPubZero returns the index (>= 6) of the first derived alphabet key of the suite whose
+// serialised public key has a zero byte at position pos (negative: counted from the end). For
+// P-384, pos 1 is the leading byte of the x coordinate.
+func FindOPRFKeyPubZero(s oprf.Suite, pos int) int {
+	k := fmt.Sprintf("%s/pubzero/%d", s.Identifier(), pos)
+	findMu.Lock()
+	defer findMu.Unlock()
+	if i, ok := findCache[k]; ok {
+		return i
+	}
+	for i := 6; i < 6+8192; i++ {
+		pb := PubKeyBytes(s, OPRFKeyBytes(s, i))
+		p := pos
+		if p < 0 {
+			p += len(pb)
+		}
+		if pb[p] == 0 {
+			findCache[k] = i
+			return i
+		}
+	}
+	panic("no key found")
+}
+
 // OPRFKey builds a fresh private key object from alphabet member i.
 func OPRFKey(s oprf.Suite, i int) *oprf.PrivateKey {
 	return OPRFKeyFromBytes(s, OPRFKeyBytes(s, i))
